@@ -357,7 +357,7 @@ def gen_history(rng, maxn=12, ncmd=7):
             pres = sorted(present)
             if r < 0.3 and pres:
                 n = rng.choice(pres)
-                ev.append({"op": "del", "name": n})
+                ev.append({"op": "del", "name": n, "rmdir": rng.random() < 0.5})
                 present.discard(n)
             elif r < 0.55:
                 n = rng.choice(names)
@@ -534,9 +534,19 @@ class World:
         os.utime(fn, ns=(t, t))
         self._fresh_stat(name, fn, self.stats.get(name))
 
-    def delete(self, name):
+    def delete(self, name, rmdir=False):
         os.unlink(self.path(name))
         self.stats.pop(name, None)
+        if rmdir:
+            # the artifact vanishes together with its (then empty) directories: `rm -r xx/yy`, pruned archive trees
+            # (seed C19-3: the index must forget it although no directory is left to be listed)
+            d = os.path.dirname(self.path(name))
+            for _ in range(2):
+                try:
+                    os.rmdir(d)
+                except OSError:
+                    break
+                d = os.path.dirname(d)
 
     def add_noise(self, rel):
         p = os.path.join(self.root, rel)
@@ -655,7 +665,7 @@ def run_case(case, transparency=True):
                 continue
             if op == "del":
                 if ev["name"] in present:
-                    w.delete(ev["name"])
+                    w.delete(ev["name"], ev.get("rmdir", False))
                     del present[ev["name"]]
                     dirty = True
                 prev_find = None
